@@ -1045,6 +1045,10 @@ def d8_regimes(prog, rep):
                     rep.undecided('regime', 'regime:%s->%s' % (d.split('::')[1], short(hk)),
                                   'the call of %s is not made directly in the sample body: argument value set not read' % short(hk), proof=False)
                     n += 1
+    if not any(o.rule == 'regime' for o in rep.obs):
+        # the helper that folds its parameter (binomial_btpe) was restructured so that its regime is not read: the anchor (Binomial::sample calling a
+        # sampling helper) is still there, the obligation is open
+        rep.undecided('regime', 'regime:Binomial->?', 'no sampling helper with a folded-parameter regime was read', proof=False)
     rep.floor('regime', 1, 'Binomial::sample -> binomial_btpe(p)')
 
     # fold <-> reflect pairing: a draw made with the folded parameter g(theta) must be mapped back, and only then
